@@ -210,6 +210,15 @@ where
         steps += 1;
     }
 
+    // Shifting by more limbs than `res` holds moves every limb out of range
+    // (mirrors the `steps >= size` early return of `vec_znx_lsh_assign`).
+    if steps > size {
+        for j in 0..size {
+            ZNXARI::znx_zero(res.at_mut(res_col, j));
+        }
+        return;
+    }
+
     let (carry, tmp) = tmp[..2 * n].split_at_mut(n);
 
     let lsh: usize = (base2k - k_rem) % base2k;
@@ -231,10 +240,11 @@ where
         ZNXARI::znx_copy(res.at_mut(res_col, size - j - 1), tmp);
     }
 
-    // Propagates carry on the rest of the limbs of res
+    // Propagates carry on the rest of the limbs of res, from the lowest of them
+    // (limb steps-1) up to limb 0, which takes the final step.
     for j in 0..steps {
-        ZNXARI::znx_zero(res.at_mut(res_col, j));
-        if j == 0 {
+        ZNXARI::znx_zero(res.at_mut(res_col, steps - j - 1));
+        if j == steps - 1 {
             ZNXARI::znx_normalize_final_step_assign(base2k, lsh, res.at_mut(res_col, steps - j - 1), carry);
         } else {
             ZNXARI::znx_normalize_middle_step_assign(base2k, lsh, res.at_mut(res_col, steps - j - 1), carry);
